@@ -392,22 +392,44 @@ Section Entries.
   Qed.
 
   (* a file object that misbehaves after load() accepted it (read() raises, returns something
-     that is not bytes or too many bytes, closes the file): every item of the iteration is the
-     item the core reader produces over the failing stream, an I/O error becomes an OSError,
-     and load() itself still succeeds *)
-  Theorem py_load_faulty_eq_core : forall desc format protein f a k,
+     that is not bytes or too many bytes, closes the file): when the reader already reads while it
+     is constructed and a read fails there, load() raises the exception of the file object;
+     otherwise load() succeeds and every next() gives the item the core reader produces over the
+     failing stream - except that a next() during which a read failed raises the exception of the
+     file object, whatever the reader made of the failure (e7689c9) *)
+  Theorem py_load_faulty_eq_core : forall fl desc format protein f a k,
     format_arg format = Value f -> protein_flag protein = Value a -> format_of f a = Value k ->
-    glue_load K (FileFaulty desc) format protein =
-      Value (RLoadSeq _ _ _ _ _
-               (map (fun it => match it with
-                               | ROk _ _ r => convert_record K a r
-                               | RErr _ _ e => PyExc (convert_error e)
-                               | RPanic _ _ => Panic
-                               end) (c_read_faulty K desc k a))) /\
+    glue_load K (FileFaulty fl desc) format protein =
+      (let (ctor, items) := c_read_faulty K desc k a in
+       if ctor then PyExc (fault_exc fl)
+       else Value (RLoadSeq _ _ _ _ _ (faulty_items K a fl items))) /\
     convert_error EIo = OSError.
   Proof.
-    intros desc format protein f a k Hf Ha Hk. unfold glue_load. rewrite Hf. cbn [obind].
+    intros fl desc format protein f a k Hf Ha Hk. unfold glue_load. rewrite Hf. cbn [obind].
     rewrite Ha. cbn [obind]. rewrite Hk. split; reflexivity.
+  Qed.
+
+  (* the j-th next() over such a file object, when no earlier next() ended the iteration quietly:
+     the exception of the file object if a read failed during it, else the converted item *)
+  Theorem py_faulty_read_exception_wins : forall a fl items j it fired,
+    nth_error items j = Some (it, fired) ->
+    (forall i, (i < j)%nat -> nth_error items i <> Some (None, false)) ->
+    nth_error (faulty_items K a fl items) j =
+      (if fired then Some (PyExc (fault_exc fl))
+       else match it with Some r => Some (item_outcome K a r) | None => None end) /\
+    (fault_exc fl = match fl with FRaises e => e | FNotBytes => TypeError | FTooMany => OSError end).
+  Proof.
+    intros a fl items. induction items as [|[x b] r IH]; intros j it fired Hn Hq.
+    - destruct j; discriminate.
+    - destruct j as [|j].
+      + cbn in Hn. inversion Hn; subst. split; [|destruct fl; reflexivity].
+        destruct it, fired; reflexivity.
+      + cbn in Hn. assert (Hx : (x, b) <> (None, false)).
+        { intro E. apply (Hq O); [lia|]. cbn. rewrite E. reflexivity. }
+        assert (Hq' : forall i, (i < j)%nat -> nth_error r i <> Some (None, false)).
+        { intros i Hi. apply (Hq (S i)). lia. }
+        destruct (IH j it fired Hn Hq') as [H1 H2]. split; [|exact H2].
+        destruct x as [x|], b; cbn; try exact H1. congruence.
   Qed.
 
   (* a Loader is lazy: k calls of next() hand out the motifs converted from the next k items of
@@ -849,7 +871,7 @@ Definition toy : core Z Z Z Z (list Z * Z) Z := {|
   c_tfm_score := fun s x => COk 4;
   c_scan := fun s q t b => if s - 1 <=? snd q then COk [(0, s); (1, s); (2, s)] else CPanic;
   c_read := fun _ _ _ => [];
-  c_read_faulty := fun _ _ _ => [RErr Z Z EIo];
+  c_read_faulty := fun _ _ _ => (false, [(Some (RErr Z Z EIo), true); (None, false)]);
   c_lazy_next := fun _ _ => None
 |}.
 
